@@ -15,6 +15,22 @@ Families
   E9  create_solution_from at the stock's own concentration (no solvent needed)                   accepted           C12 C03
   E10 create_solution_from with an enzyme solute (U/mL, mg/mL met; a molar target refused)        FROM monitor       C12
   E11 two lots of one enzyme (same name, different specific activity) in one container / transfer  masses add up      C06 C02
+Round 10 (second hunt):
+  E12 extreme dilutions / tiny totals in create_solution_from ('1 pM' from 1 M; '0.15 pL')        delivered; '1.05 M' from 1 M refused   C12 C03
+  E13 a source of enzymes only; an enzyme as the diluent (from, dilute, recipe forms)              accepted / ValueError   C12 C03 C11
+  E14 create_solution: a solute listed twice, any iterable, U total with an enzyme in the buffer,
+      a trace quantity in a huge total                                                            ValueError or every stated value met   C05 C03
+  E15 one specific activity in several spellings; malformed units in convert_to_storage;
+      a concentration over an infinite amount                                                     equal / ValueError      C14 C06
+  E16 get_concentration: the default unit is the configured one, 'M' and 'nM' tell the same;
+      two lots of one enzyme each have their row in the table                                     agree with contents     C10 C14 C19
+  E17 a real net decrease on a large plate                                                        ValueError              C09
+  E18 recipe steps keep what they were declared with (lists appended to afterwards, an empty
+      list filled afterwards); an enzyme diluted by a recipe; a no-op dilute with a new name        bake = eager            C08 C04
+  E19 what a call returns is the caller's own: the table, the set, the dict of results;
+      a returned container is never the argument itself                                           unchanged answers       C04 C10 C09
+  E20 requests that need nothing: top up a well to the volume just dispensed into it; the
+      concentration a solution was made with (from / dilute)                                      accepted                C18 C03 C11 C12
 """
 from __future__ import annotations
 
@@ -46,7 +62,7 @@ def edges(rng, case, idx):
                 raise
             return None, e
 
-    fam = idx % 11
+    fam = idx % 20
     M.count('EDGE')
     with M.active(case):
         if fam == 0:
@@ -250,3 +266,276 @@ def edges(rng, case, idx):
                 if abs(gained - 4.0) > 1e-6:
                     viol(['C06', 'C02', 'C01'], 'C02:transfer_between_two_lots_of_one_enzyme_moves_another_mass', {'activities_U_per_mg': [a1, a2], 'requested_mg': 4.0, 'gained_mg': gained})
             M.note_nontrivial(case['prop'], ('E11', a1, a2))
+
+        elif fam == 11:
+            # ---- E12
+            stock = C.create_solution(salt, water, concentration='1 M', total_quantity='100 mL')
+            for target, q, must in (('1 pM', '10 mL', 'accept'), ('1 nM', '10 mL', 'accept'), ('0.1 pM', '100 mL', 'accept'), ('0.5 M', '0.15 pL', 'accept'),
+                                    ('0.5 M', rng.choice(['1 pL', '20 pL', '3 nL']), 'accept'), ('1.05 M', '1 pL', 'refuse'), ('1.5 M', '0.1 pL', 'refuse')):
+                M.bucket(case['prop'] + '/edge/E12_extreme_dilution_or_tiny_total/' + must)
+                M.expect = {'op': 'Container.create_solution_from', 'must': must, 'tag': 'extreme_dilution'}
+                res, exc = attempt(lambda: C.create_solution_from(stock, salt, target, water, q))
+                M.expect = None
+                if exc is None and must == 'accept':
+                    new = res[1]
+                    cv = R.parse_concentration(target)[0]
+                    want = cv * R.parse_quantity(q)[0] / cf.mol_prefix            # storage units of NaCl
+                    got = new.contents.get(salt, 0.0)
+                    if abs(got - want) > max(2 * cf.q, 1e-6 * want):
+                        viol(['C12', 'C03'], 'C12:solute_amount_not_delivered:extreme_dilution_or_tiny_total',
+                             {'target': target, 'quantity': q, 'delivered_storage_units': got, 'expected': want})
+                M.note_nontrivial(case['prop'], ('E12', target, q))
+        elif fam == 12:
+            # ---- E13
+            amy = S.enzyme('amylase', f'{rng.choice([5, 10, 25])} U/mg')
+            lip = S.enzyme('lipase', '40 U/mg')
+            prep = C('prep', initial_contents=[(amy, '1000 U')] + ([(lip, '10 U')] if rng.random() < 0.5 else []))
+            M.bucket(case['prop'] + '/edge/E13_enzyme_only_source')
+            M.expect = {'op': 'Container.create_solution_from', 'must': 'accept', 'tag': 'enzyme_only_source'}
+            res, exc = attempt(lambda: C.create_solution_from(prep, amy, '0.5 U/mL', water, '10 mL'))
+            M.expect = None
+            brine = C.create_solution(salt, water, name='brine', concentration='1 M', total_quantity='10 mL')
+            r1, r2 = pp.Recipe().uses(brine), pp.Recipe().uses(brine)
+            for label, fn in (('create_solution_from', lambda: C.create_solution_from(brine, salt, '0.5 M', amy, '5 mL')), ('dilute', lambda: brine.dilute(salt, '0.5 M', amy)),
+                              ('Recipe.dilute', lambda: (r1.dilute(brine, salt, '0.5 M', amy), r1.bake())),
+                              ('Recipe.create_solution_from', lambda: (r2.create_solution_from(brine, salt, '0.5 M', amy, '5 mL'), r2.bake()))):
+                M.bucket(case['prop'] + '/edge/E13_enzyme_as_the_diluent')
+                res, exc = attempt(fn)
+                if exc is not None and not isinstance(exc, ValueError):
+                    viol(['C03', 'C11', 'C12'], f'C03:refusal_not_ValueError:enzyme_as_the_diluent:{label}:{type(exc).__name__}', {'exc': repr(exc)[:160]})
+                elif exc is None and label in ('create_solution_from', 'dilute'):
+                    new = res[1] if isinstance(res, tuple) else res
+                    got = R.concentration(new.contents, salt, 'mol', 'L')
+                    if abs(got - 0.5) > 1e-4:
+                        viol(['C11', 'C12', 'C03'], f'C12:enzyme_as_the_diluent_accepted_with_a_wrong_result:{label}', {'stated': '0.5 M', 'got_M': got})
+            M.note_nontrivial(case['prop'], ('E13', amy.specific_activity))
+        elif fam == 13:
+            # ---- E14
+            suc = S.solid('sucrose', 342.3)
+            M.bucket(case['prop'] + '/edge/E14_solute_listed_twice')
+            for kw in ({'concentration': '1 M', 'total_quantity': '1 L'}, {'quantity': ['1 g', '2 g'], 'total_quantity': '1 L'}):
+                for pair in ([salt, salt], [salt, S.solid('NaCl', 58.4428)]):
+                    res, exc = attempt(lambda: C.create_solution(pair, water, **kw))
+                    if exc is None:
+                        got_m = R.concentration(res.contents, salt, 'mol', 'L')
+                        got_g = R.canon(salt, res.contents.get(salt, 0.0)) * R.per(salt, 'g')
+                        if ('concentration' in kw and abs(got_m - 1.0) > 1e-4) or ('quantity' in kw and min(abs(got_g - 1.0), abs(got_g - 2.0)) > 1e-4):
+                            viol(['C05', 'C03'], 'C05:stated_value_not_met:solute_listed_twice', {'kwargs': kw, 'got_M': got_m, 'got_g': got_g})
+                    elif not isinstance(exc, ValueError):
+                        viol(['C05', 'C03'], f'C05:refusal_not_ValueError:solute_listed_twice:{type(exc).__name__}', {'exc': repr(exc)[:120]})
+            M.bucket(case['prop'] + '/edge/E14_any_iterable')
+            base = C.create_solution([salt, suc], water, concentration=['1 M', '0.5 M'], total_quantity='10 mL')
+            for label, fn in (('tuple_of_solutes', lambda: C.create_solution((salt, suc), water, concentration=['1 M', '0.5 M'], total_quantity='10 mL')),
+                              ('iterator_of_concentrations', lambda: C.create_solution([salt, suc], water, concentration=iter(['1 M', '0.5 M']), total_quantity='10 mL')),
+                              ('generator_of_solutes', lambda: C.create_solution((x_ for x_ in (salt, suc)), water, concentration=('1 M', '0.5 M'), total_quantity='10 mL'))):
+                res, exc = attempt(fn)
+                if exc is not None or res.contents != base.contents:
+                    viol(['C05', 'C04'], f'C05:iterable_argument_not_taken_like_a_list:{label}', {'exc': repr(exc)[:120], 'contents': None if exc else [(s_.name, a_) for s_, a_ in res.contents.items()]})
+            r = pp.Recipe()
+            res, exc = attempt(lambda: (r.create_solution((salt, suc), water, name='t', concentration=iter(['1 M', '0.5 M']), total_quantity='10 mL'), r.bake())[1])
+            if exc is not None or res['t'].contents != base.contents:
+                viol(['C05', 'C08', 'C04'], 'C08:recipe_create_solution_with_iterables_ne_eager', {'exc': repr(exc)[:120]})
+            M.bucket(case['prop'] + '/edge/E14_total_in_U_with_an_enzyme_in_the_solvent_container')
+            amy, lip = S.enzyme('amylase', '10 U/mg'), S.enzyme('lipase', '5 U/mg')
+            buf = C('buffer', initial_contents=[(water, '100 mL'), (lip, '10 U')])
+            res, exc = attempt(lambda: C.create_solution(amy, buf, concentration='0.1 U/mL', total_quantity='5 U'))
+            if exc is None:
+                tot = sum(a_ for s_, a_ in res[1].contents.items() if s_.is_enzyme())
+                if abs(tot - 5.0) > 1e-6:
+                    viol(['C05', 'C03'], 'C05:stated_value_not_met:total_in_U_with_an_enzyme_in_the_solvent_container', {'stated_total_U': 5.0, 'got_U': tot})
+            elif not isinstance(exc, ValueError):
+                viol(['C05', 'C03'], f'C05:refusal_not_ValueError:total_in_U:{type(exc).__name__}', {'exc': repr(exc)[:120]})
+            M.bucket(case['prop'] + '/edge/E14_trace_quantity_in_a_huge_total')
+            for q, tot in (('1 pmol', '1000 kg'), ('1 pmol', '10 kg'), ('3 pmol', '100 kg'), ('20 pmol', '50 kg')):
+                res, exc = attempt(lambda: C.create_solution(rng.choice([salt, suc]), water, quantity=q, total_quantity=tot))
+                if exc is None:
+                    sol_ = [s_ for s_ in res.contents if s_ != water][0]
+                    got = res.contents[sol_]
+                    want = R.parse_quantity(q)[0] / cf.mol_prefix
+                    if abs(got - want) > 2 * cf.q:
+                        viol(['C05', 'C03'], 'C05:stated_quantity_not_met:trace_in_a_huge_total', {'quantity': q, 'total': tot, 'stored': got, 'expected_storage_units': want})
+                else:
+                    viol(['C05', 'C03'], f'C05:feasible_request_refused:trace_in_a_huge_total:{type(exc).__name__}', {'quantity': q, 'total': tot, 'exc': repr(exc)[:120]})
+            M.note_nontrivial(case['prop'], ('E14', idx))
+        elif fam == 14:
+            # ---- E15
+            n = rng.choice([100, 514.3, 7, 250, 0.5, 33, 8, 40, 125])
+            forms = [f'{n} U/mg', f'{n * 1000:.10g} U/g', f'{n / 1000:.10g} U/ug', f'{n} kU/g']
+            if n in (100, 250, 0.5, 8, 40, 125):
+                # (the reciprocal spellings, where a few digits carry the reciprocal exactly)
+                forms += [f'{1000 / n:.12g} ug/U', f'{1 / n:.12g} mg/U']
+            M.bucket(case['prop'] + '/edge/E15_one_specific_activity_in_several_spellings')
+            made = [(f_, attempt(lambda: S.enzyme('lipase', f_))) for f_ in forms]
+            subs_ = [(f_, r_) for f_, (r_, e_) in made if e_ is None]
+            if len(subs_) != len(forms):
+                viol(['C14', 'C06'], 'C14:wellformed_specific_activity_refused', {'forms': [(f_, repr(e_)[:80]) for f_, (r_, e_) in made if e_ is not None]})
+            ref = subs_[0][1]
+            vial = C('vial', initial_contents=[(water, '10 mL'), (ref, '10 U')])
+            for f_, s_ in subs_[1:]:
+                reads = vial.get_concentration(s_, 'U/mL')
+                if not (s_ == ref and hash(s_) == hash(ref)) or abs(reads - vial.get_concentration(ref, 'U/mL')) > 1e-9:
+                    viol(['C14', 'C06', 'C10'], 'C14:one_specific_activity_spelt_differently_is_another_substance',
+                         {'spellings': [forms[0], f_], 'values': [ref.specific_activity, s_.specific_activity], 'equal': s_ == ref, 'vial_reads_U_per_mL': reads})
+                    break
+            M.bucket(case['prop'] + '/edge/E15_malformed_unit_in_convert_to_storage')
+            for u in ('mg', 'kg', 'U', 'kU', 'mM', 'l', 'xyz', 'g', 'mo', 'ml'):
+                res, exc = attempt(lambda: pp.Unit.convert_to_storage(1, u))
+                if exc is None:
+                    viol(['C14', 'C06'], 'C14:convert_to_storage_reads_a_unit_that_is_neither_volume_nor_moles', {'unit': u, 'returned': res})
+                    break
+            M.bucket(case['prop'] + '/edge/E15_concentration_over_an_infinite_amount')
+            st = C('st', initial_contents=[(water, '1 L'), (salt, '1 mol')])
+            for label, fn in (('parse_concentration', lambda: pp.Unit.parse_concentration('1 mol/inf L')), ('parse_concentration_1e400', lambda: pp.Unit.parse_concentration('1 mol/1e400 L')),
+                              ('Substance.enzyme', lambda: S.enzyme('ghost', '1 U/inf g')), ('create_solution_from', lambda: C.create_solution_from(st, salt, '1 mol/inf L', water, '10 mL')),
+                              ('dilute', lambda: st.dilute(salt, '1 mol/inf L', water))):
+                res, exc = attempt(fn)
+                if exc is None:
+                    viol(['C14', 'C03'], f'C14:malformed_concentration_accepted:{label}:infinite_denominator', {'returned': repr(res)[:100]})
+            M.note_nontrivial(case['prop'], ('E15', n))
+        elif fam == 15:
+            # ---- E16
+            cdu = cf.concentration_display_unit() if callable(getattr(cf, 'concentration_display_unit', None)) else getattr(cf, 'concentration_display_unit', 'M')
+            nm = rng.choice([0.25, 0.04, 1.04, 7.5, 120])
+            sol = C.create_solution(salt, water, concentration=f'{nm} nM', total_quantity='10 mL')
+            M.bucket(case['prop'] + '/edge/E16_default_unit_and_scale_of_get_concentration')
+            res, exc = attempt(lambda: (sol.get_concentration(salt), sol.get_concentration(salt, cdu), sol.get_concentration(salt, 'M'), sol.get_concentration(salt, 'nM')))
+            if exc is not None:
+                viol(['C10'], f'C10:get_concentration_raised:{type(exc).__name__}', {'exc': repr(exc)[:120]})
+            else:
+                dflt, in_cdu, in_m, in_nm = res
+                if abs(dflt - in_cdu) > 1e-9 * abs(in_cdu):
+                    viol(['C10', 'C18'], 'C10:get_concentration_default_unit_is_not_the_configured_one', {'configured': cdu, 'default_answer': dflt, 'answer_in_configured_unit': in_cdu})
+                if abs(in_m * 1e9 - in_nm) > 2e-9 * abs(in_nm) or abs(in_nm - nm) > 1e-6 * nm:
+                    viol(['C10', 'C14'], 'C10:concentration_reported_differently_in_M_and_in_nM', {'made_as_nM': nm, 'in_M': in_m, 'in_nM': in_nm})
+            M.bucket(case['prop'] + '/edge/E16_two_lots_in_the_table')
+            a1, a2 = rng.sample([5, 10, 20, 40], 2)
+            la, lb = S.enzyme('amylase', f'{a1} U/mg'), S.enzyme('amylase', f'{a2} U/mg')
+            ua, ub = rng.choice([3, 5, 8]), rng.choice([2, 7])
+            mix = C('mix', '100 mL', [(water, '10 mL'), (la, f'{ua} U'), (lb, f'{ub} U')])
+            df, exc = attempt(lambda: mix.dataframe())
+            if exc is None:
+                from pv.instr import tokens
+                rows_u = []
+                for lab in df.index:
+                    if str(lab).startswith('amylase'):
+                        t_ = tokens(str(df.loc[lab, 'U']) + ' ')
+                        rows_u.append(t_[0][0] * R.PREFIX[t_[0][1]] if t_ else None)
+                if sorted(x_ for x_ in rows_u if x_ is not None) != sorted([float(ua), float(ub)]):
+                    viol(['C10', 'C19', 'C06'], 'C19:container_table_does_not_list_both_lots_of_an_enzyme', {'held_U': [ua, ub], 'rows_U': rows_u, 'index': [str(i_) for i_ in df.index]})
+            M.note_nontrivial(case['prop'], ('E16', nm, a1, a2))
+        elif fam == 16:
+            # ---- E17
+            dye = S.solid('dye', 350.0)
+            rows_, cols_ = rng.choice([(16, 24), (8, 12), (32, 48)])
+            nM = rng.choice([10, 50, 20])
+            stock = C.create_solution(dye, water, concentration=f'{nM} nM', total_quantity='100 mL')
+            plate = pp.Plate('plate', '100 uL', rows=rows_, columns=cols_)
+            waste = C('waste')
+            r = pp.Recipe().uses(stock, plate, waste)
+            r.transfer(stock, plate, '10 uL')
+            r.start_stage('sampling')
+            r.transfer(plate['A:1'], waste, '5 uL')
+            r.end_stage('sampling')
+            r.bake()
+            M.bucket(case['prop'] + '/edge/E17_real_decrease_on_a_large_plate')
+            lost = nM * 1e-9 * 5e-6 / cf.mol_prefix           # storage units
+            if lost > 100 * cf.q:
+                res, exc = attempt(lambda: r.get_substance_used(dye, 'sampling', 'pmol', destinations=[plate]))
+                if exc is None or not isinstance(exc, ValueError):
+                    viol(['C09'], 'C09:net_decrease_not_refused_with_ValueError:large_plate', {'plate': [rows_, cols_], 'lost_storage_units': lost, 'answer': res, 'exc': repr(exc)[:100]})
+            res, exc = attempt(lambda: r.get_substance_used(dye, 'sampling', 'pmol', destinations=[plate, waste]))
+            if exc is not None or abs(res) > 1e-3:
+                viol(['C09'], 'C09:closed_system_not_zero:large_plate', {'answer': res, 'exc': repr(exc)[:100]})
+            M.note_nontrivial(case['prop'], ('E17', rows_, cols_, nM))
+        elif fam == 17:
+            # ---- E18
+            suc, kcl2 = S.solid('glucose', 180.16), kcl
+            M.bucket(case['prop'] + '/edge/E18_steps_keep_what_they_were_declared_with')
+            r = pp.Recipe()
+            solutes, concs, eager = [], [], {}
+            for s_, c_ in ((salt, '10 mM'), (kcl2, '20 mM'), (suc, '5 mM')):
+                solutes.append(s_)
+                concs.append(c_)
+                nme = f'mix{len(solutes)}'
+                r.create_solution(solutes, water, nme, concentration=concs, total_quantity='10 mL')
+                eager[nme] = C.create_solution(list(solutes), water, nme, concentration=list(concs), total_quantity='10 mL')
+            lst = []
+            r.create_container('blank', '10 mL', lst)
+            lst.append((water, '1 mL'))
+            res, exc = attempt(lambda: r.bake())
+            if exc is not None:
+                viol(['C08'], f'C08:bake_raised:{type(exc).__name__}', {'exc': repr(exc)[:120]})
+            else:
+                for nme, e_ in eager.items():
+                    if res[nme].contents != e_.contents:
+                        viol(['C08', 'C04'], 'C08:step_carried_out_with_what_the_callers_list_held_at_bake', {'step': nme, 'declared_with': [s_.name for s_ in e_.contents], 'baked_with': [s_.name for s_ in res[nme].contents]})
+                        break
+                if res['blank'].contents:
+                    viol(['C08', 'C04'], 'C08:step_carried_out_with_what_the_callers_list_held_at_bake:create_container_empty_list', {'baked_with': [s_.name for s_ in res['blank'].contents]})
+            M.bucket(case['prop'] + '/edge/E18_enzyme_diluted_by_a_recipe')
+            amy = S.enzyme('amylase', '10 U/mg')
+            c = C('c', '1 L', [(water, '99 mL'), (amy, '100 U')])
+            e_, exc_e = attempt(lambda: c.dilute(amy, '0.25 U/mL', water))
+            r = pp.Recipe().uses(c)
+            b_, exc_b = attempt(lambda: (r.dilute(c, amy, '0.25 U/mL', water), r.bake())[1])
+            if (exc_e is None) != (exc_b is None) or (exc_e is None and b_['c'].contents != e_.contents):
+                viol(['C08', 'C11'], 'C08:bake_and_eager_disagree:enzyme_dilution', {'eager': repr(exc_e)[:100], 'bake': repr(exc_b)[:100]})
+            M.bucket(case['prop'] + '/edge/E18_no_op_dilute_with_a_new_name')
+            st = C.create_solution(salt, water, 'stock', concentration='1 M', total_quantity='10 mL')
+            e_, exc_e = attempt(lambda: st.dilute(salt, '1 M', water, 'working'))
+            r = pp.Recipe().uses(st)
+            b_, exc_b = attempt(lambda: (r.dilute(st, salt, '1 M', water, 'working'), r.bake())[1])
+            if exc_e is None and exc_b is None and e_.name != b_['stock'].name:
+                viol(['C08', 'C11'], 'C08:bake_and_eager_disagree:name_of_a_no_op_dilute', {'eager_name': e_.name, 'baked_name': b_['stock'].name})
+            M.note_nontrivial(case['prop'], ('E18', idx))
+        elif fam == 18:
+            # ---- E19
+            M.bucket(case['prop'] + '/edge/E19_what_a_call_returns_is_the_callers_own')
+            stock = C('stock', '10 mL', [(water, '5 mL'), (salt, '1 g')])
+            before = repr(stock)
+            df, exc = attempt(lambda: stock.dataframe())
+            if exc is None:
+                df['note'] = 'checked'
+                df.drop(index='NaCl', inplace=True)
+                again = C('stock', '10 mL', [(water, '5 mL'), (salt, '1 g')])
+                if repr(stock) != before or repr(again) != before or 'NaCl' not in stock.dataframe().index:
+                    viol(['C04', 'C10', 'C19'], 'C04:editing_the_returned_table_changes_what_the_container_reports', {'index_now': [str(i_) for i_ in stock.dataframe().index]})
+            plate = pp.Plate('p', '100 uL', rows=2, columns=2)
+            src = C('src', initial_contents=[(water, '10 mL')])
+            r = pp.Recipe().uses(plate, src)
+            r.transfer(src, plate, '10 uL')
+            res, exc = attempt(lambda: r.bake())
+            if exc is None:
+                a1 = r.get_substance_used(water, unit='uL')
+                popped = res.pop('p')
+                a2 = r.get_substance_used(water, unit='uL')
+                res['p'] = popped
+                if a1 != a2:
+                    viol(['C04', 'C09', 'C16'], 'C04:editing_the_returned_dict_of_results_changes_the_answers_of_the_baked_recipe', {'before': a1, 'after_pop': a2})
+            st = C.create_solution(salt, water, concentration='1 M', total_quantity='100 mL')
+            dil = C('diluent', initial_contents=[(water, '50 mL')])
+            res, exc = attempt(lambda: C.create_solution_from(st, salt, '1 M', dil, '10 mL'))
+            if exc is None and (res[0] is st or res[1] is dil):
+                viol(['C04'], 'C04:returned_object_is_the_argument_itself:create_solution_from', {'source': res[0] is st, 'solvent_container': res[1] is dil})
+            M.note_nontrivial(case['prop'], ('E19', idx))
+        elif fam == 19:
+            # ---- E20
+            M.bucket(case['prop'] + '/edge/E20_requests_that_need_nothing')
+            mw = rng.choice([150000, 66000, 507.18, 58.44])
+            big = S.solid('IgG', mw)
+            conc = rng.choice(['0.5 mg/mL', '50 ug/mL', '5 mg/mL', '1 mg/mL'])
+            stock, exc = attempt(lambda: C.create_solution(big, water, concentration=conc, total_quantity='1.5 mL'))
+            if exc is None:
+                plate = pp.Plate('p', '100 uL', rows=2, columns=2)
+                res, exc = attempt(lambda: pp.Plate.transfer(stock, plate['A:1'], '20 uL'))
+                if exc is None:
+                    _, exc2 = attempt(lambda: res[1].fill_to(water, '20 uL'))
+                    if exc2 is not None:
+                        viol(['C18', 'C03', 'C11'], f'C03:top_up_to_the_volume_just_dispensed_refused:{type(exc2).__name__}', {'solute_molar_mass': mw, 'concentration': conc, 'exc': repr(exc2)[:120]})
+                M.expect = {'op': 'Container.create_solution_from', 'must': 'accept', 'tag': 'the_concentration_it_was_made_with'}
+                attempt(lambda: C.create_solution_from(stock, big, conc, water, '0.5 mL'))
+                M.expect = None
+                _, exc3 = attempt(lambda: stock.dilute(big, conc, water))
+                if exc3 is not None:
+                    viol(['C18', 'C03', 'C11'], f'C11:dilute_to_the_concentration_it_was_made_with_refused:{type(exc3).__name__}', {'solute_molar_mass': mw, 'concentration': conc, 'exc': repr(exc3)[:120]})
+            M.note_nontrivial(case['prop'], ('E20', mw, conc))
